@@ -187,6 +187,9 @@ func (ev *Evaluator) runBlock(b, from *ssa.BasicBlock, env *evalEnv) {
 					env.vals[x] = v
 				}
 			}
+		case *ssa.Select:
+			// executed marker (which case fires stays unknown: the extracted index is not evaluated)
+			env.vals[x] = EVal{K: EPtr, Tok: x}
 		case *ssa.Convert:
 			env.vals[x] = get(x.X)
 		case *ssa.ChangeType:
